@@ -48,7 +48,8 @@ def run(c):
         "POSIX semantics as stated in Model/SpoolFS.lean: create/rename/remove of a directory entry are atomic and durable at once (the property's crash model "
         "only drops file DATA); file data is durable after fsync; a crash keeps, per file, the durable data plus ANY prefix of the data written since "
         "(between-operations, torn write and drop-unsynced are the three named instances)",
-        "file-system calls do not fail (errors of create/write/fsync/rename are outside the property's quantifier); message ids are unique; "
+        "MUTATING file-system calls do not fail (errors of create/write/fsync/rename are outside the property's quantifier; transient failures of the read-only calls of the "
+        "start-up scan and of openMessage are modelled and injected); message ids are unique; "
         "the delivery TARGET does not panic (a panic quarantines the message as .meta_broken by design: hypothesis `quarantined = false` of C02_accepted_survives); "
         "the monitor only excuses panics the harness scripted into the target - a .meta_broken the queue produces on its own in a recovery run is a loss",
         "null reverse-path (MAIL FROM:<>): emitDSN produces no report, a recipient that fails for good is given up on (C02_terminal_outcome, C02_report_iff_sender); "
@@ -81,11 +82,21 @@ def run(c):
         "files deleted between start-up scan and dispatch; empty and 1-byte body files, headers without fields / with empty fields) to reach every branch of readDiskQueue/openMessage; "
         "plus hand-made backlogs (`C02 backlog`): 3-5 complete stored messages, max_parallelism 1-2, first attempts of the recovery run failing temporarily, run to quiescence; "
         "a run that makes no progress at all for 25 s while the queue still owes a delivery is reported (C02/recovery-hang) and abandoned; "
-        "(scenarios with 4-5 messages: a 30% sample of the crash points;) distinct = distinct per-id histories",
+        "(scenarios with 4-5 messages: a 30% sample of the crash points;) distinct = distinct per-id histories; "
+        "every delivery attempt is scripted stage by stage (`O<add>/a<b>/<c>` plain target, `O<add>/n<b..>/<c>` target implementing PartialDelivery: AddRcpt per recipient, "
+        "Body / BodyNonAtomic per accepted recipient, Commit, each ok|temporary|permanent|unclassified; a recipient counts as delivered only when Commit succeeded); "
+        "hand-made directories are run up to three times in a row (clean stop in between), a third of them with a TRANSIENT fault (EMFILE, EIO, EACCES, ENFILE, EINTR, ENOMEM; "
+        "injected by the os shim, once) in one read-only call of the start-up scan (open/read of .meta, stat of header/body) or of openMessage (open/read of .meta, stat of body, open of header), "
+        "mostly followed by a fault-free restart; half of all scenarios / hand-made directories / backlogs use a spool directory with an unusual but legal name "
+        "(`L<k>`: glob metacharacters [ ] * ? \\, an unbalanced bracket, spaces, percent signs, leading dash, quotes/braces/dollar, non-ASCII, 240 characters, a name ending in .meta)",
         explanation="inductive invariant over a small-step model in which every single file-system call is a step and a crash (any loss of un-synced data, any torn write) is possible in "
         "every state, recovery included to any depth; model tied to queue.go by the regenerated call skeleton (T1) and by exhaustive crash-point enumeration on the real code (T2); "
         "independent Go monitor on the real events (accepted-lost / stored-lost: in EVERY recovery run each pending recipient of a complete stored message is attempted and then delivered, "
-        "reported, or still pending in a loadable .meta; recovery-hang; aborted-delivered, foreign-recipient, resent-after-later-attempt, content); "
+        "reported, or still pending in a loadable .meta — over ALL later runs of a hand-made directory, a run that met a transient fault may only skip and keep the message; "
+        "recovery-hang; aborted-delivered, foreign-recipient, resent-after-later-attempt, resent-after-delivery (a recipient whose outcome the queue had finished recording when the "
+        "process stopped is attempted again), content); "
+        "Queue.deliver is the model's deliverErrs (C02_delivered_only_if_committed, C02_commit_failure_delivers_nobody, C02_commit_failure_keeps_recipients); transient faults of the "
+        "read-only calls are the choices scanFault / openFault (C02_scan_fault_entry_kept, C02_scan_fault_invisible, C02_skipped_entry_still_pending); "
         "a spool larger than max_parallelism: SysReachPar (dispatch needs a free delivery slot) is a sub-system of the free product of the ids, never exceeds the bound, and a slot "
         "holder always has an enabled own step and frees the slot after at most five of them (C02_backlog_*, C02_slot_*); header-only messages: the zero-length write is a stutter step "
         "and an empty body file is recovered like any other (C02_empty_*)",
